@@ -174,6 +174,8 @@ func HarnessC08TokenBucketStep() {
 	tok2 := vgetPriv(lim, "tokens").(float64)
 	last2 := vgetPriv(lim, "last").(time.Time)
 	vassert(tok2 <= float64(burst), "C08/bucket-holds-more-than-burst")
+	// a grant has been paid out of at most a full bucket (starts the telescoping sum of a window)
+	vassert(tok2 <= float64(burst)-granted+c08Slack, "C08/grant-leaves-more-than-burst-minus-grant")
 	vassert(tok2 >= -0.001, "C08/bucket-overdrawn")
 	el := last2.Sub(last)
 	vassert(el >= 0, "C08/bucket-time-stamp-moved-backwards")
